@@ -206,6 +206,14 @@ def one_document(ctx, schema, holder, dump, sdl, enum_kind, label, text, variabl
                      c.replay_data({"impl": c.impl, "label": label}))
             return "accepted"
         if "data" in c.impl:
+            for e in c.impl["errors"]:
+                if e["kind"] == "directive":
+                    # invalid @skip/@include condition at run time: a field error (root: data null), never an exception
+                    ctx.stat("directive-field-error:" + ("root" if not e["path"] else "nested"))
+                    if (not e["path"]) != (c.impl["data"] is None):
+                        ctx.fail("directive-error-shape:%s" % (label or K.features_sig(text)),
+                                 "a directive-condition error without path must come with data = null (root selection set), one with a path with data",
+                                 c.replay_data({"impl": c.impl, "label": label}))
             why = check_shape(dump, c.docj, c.opname, c.coerced, c.impl, c.seed)
             if why:
                 ctx.fail("shape-mismatch:%s" % (label or K.features_sig(text)),
@@ -411,6 +419,17 @@ FIXED = [
     ("typename-only", "{ __typename }", {}),
     ("V8-list-literal-at-directive-condition", "{ a @include(if: [true]) }", {}),
     ("V8-list-literal-with-variable", "query($b: Boolean!) { s @skip(if: [$b]) }", {"b": False}),
+    ("V8-list-literal-nested", "{ b { id @include(if: [true]) } a }", {}),
+    ("V8-list-literal-under-list-item", "{ ns { b { id @skip(if: [true]) } } s }", {}),
+    ("V8-list-literal-at-spread", "{ b { ...G @skip(if: [false]) } a } fragment G on Ob { id }", {}),
+    ("directive-null-variable-root", "query($v: Boolean = true){ b @skip(if:$v) { id } a }", {"v": None}),
+    ("directive-null-variable-root-include", "query($v: Boolean = false){ a s @include(if:$v) }", {"v": None}),
+    ("directive-null-variable-nested", "query($v: Boolean = true){ b { id @include(if:$v) } a }", {"v": None}),
+    ("directive-null-variable-list", "query($v: Boolean = true){ ns { id t @skip(if:$v) } s }", {"v": None}),
+    ("directive-null-variable-abstract-item", "query($v: Boolean = true){ ns { __typename ... on Other { c @skip(if: $v) } } u { ... on Ob { id @skip(if: $v) } } }", {"v": None}),
+    ("directive-null-variable-fragment", "query($v: Boolean = true){ b { ...F } a } fragment F on Ob { id b { a @include(if:$v) } }", {"v": None}),
+    ("directive-null-variable-inline", "query($v: Boolean = true){ n { ... on Node @skip(if:$v) { id } } a }", {"v": None}),
+    ("directive-null-variable-default-used", "query($v: Boolean = true){ b @skip(if:$v) { id } a }", {}),
     ("list-literal-at-scalar-argument", "{ a(i: [1]) }", {}),
     ("seen-fragments-quirk", "{ ... on Query { ...F } ...F n { ... { ...G } ...G } } fragment F on Query { s a } fragment G on Node { id }", {}),
     ("meta-on-non-root", "{ b { __schema { types { name } } } }", {}),
@@ -474,6 +493,7 @@ def flush_lean(ctx, batch):
                      c.replay_data({"label": label}), kind="correspondence")
         ctx.stat("key-consistent:%s" % a.get("key_consistent"))
         ctx.stat("merge-safe:%s" % a.get("merge_safe"))
+        ctx.stat("dirs-strict:%s" % a.get("dirs_strict"))
         if a.get("merge_safe") and a.get("key_consistent") is False:
             ctx.stat("merge-safe-but-not-key-consistent")
             if label:
